@@ -38,6 +38,15 @@ def install(pe):
     E[B + "frozenset"] = lambda pe, a, k: frozenset(pe.hashable(x) for x in pe.iterate(a[0])) if a else frozenset()
     E[B + "dict"] = lambda pe, a, k: _dict(pe, a, k)
     E[B + "sorted"] = lambda pe, a, k: _sorted(pe, a, k)
+
+    def _defaultdict(pe, a, k):
+        from .pe import DefaultDict
+
+        d = DefaultDict()
+        d.factory = a[0] if a else None
+        return d
+
+    E["collections.defaultdict"] = _defaultdict
     E[B + "reversed"] = lambda pe, a, k: list(reversed(pe.iterate(a[0])))
     E[B + "isinstance"] = lambda pe, a, k: _isinstance(pe, a[0], a[1])
     E[B + "print"] = lambda pe, a, k: None
